@@ -75,6 +75,8 @@ def run_case(arg):
             gt = get_com_2d(torch.tensor(data.reshape(n, dr, dc))).numpy()
             if np.abs(gt - com).max() > TOL:
                 bad("C18:get_com_2d:torch", f"max error {np.abs(gt - com).max():.4f}")
+            if not np.array_equal(np.asarray(ds.array), data):
+                bad("C18:inputs-modified", "the dataset array was modified by the origin estimation")
             # 4. plane / constant fits return the surface
             pv = np.array(case["planeVals"], dtype=float)          # (n, 2)
             if sr >= 2 and sc >= 2:
